@@ -179,23 +179,23 @@ Example br_hypotheses :
   WGood ex_world /\ doc_at (run ex_world br_ops) 0 = Some br_store /\
   doc_element br_store <> None /\ doc_decl br_store = None /\
   TreeInv rp_store /\ OrderInv rp_store /\ doc_element rp_store <> None /\ doc_decl rp_store = None /\
-  NamesOk br_view /\ same_tree br_view rp_view.
+  same_tree br_view rp_view.
 Proof.
   split; [exact ex_good|]. split; [vm_compute; reflexivity|].
   split; [vm_compute; discriminate|]. split; [vm_compute; reflexivity|].
   assert (T : TreeInv rp_store) by (apply tree_inv_b_sound; vm_compute; reflexivity).
   split; [exact T|]. split; [apply order_inv; [exact T | apply store_of_list_order_ok]|].
-  split; [vm_compute; discriminate|]. split; [vm_compute; reflexivity|].
-  split; [apply names_ok_b_sound; vm_compute; reflexivity | vm_compute; reflexivity].
+  split; [vm_compute; discriminate|]. split; [vm_compute; reflexivity | vm_compute; reflexivity].
 Qed.
 
 (** so the tables of both satisfy the evaluator's invariants ... *)
 Example br_invariants :
-  DocInv br_view /\ SpecShape br_view /\ ParentsOk br_view /\ DocInv rp_view /\ SpecShape rp_view /\ ParentsOk rp_view.
+  DocInv br_view /\ SpecShape br_view /\ ParentsOk br_view /\ NamesOk br_view /\
+  DocInv rp_view /\ SpecShape rp_view /\ ParentsOk rp_view.
 Proof.
   destruct br_hypotheses as [Hg [Hd [He [Hdt [T [O [He2 [Hdt2 _]]]]]]]].
   destruct (bridge_reachable (facts_of br_store) true ex_world br_ops 0 br_store Hg Hd He) as [I [S P]].
-  split; [exact I|]. split; [exact S|]. split; [exact (P Hdt)|].
+  split; [exact I|]. split; [exact S|]. split; [exact (proj1 (P Hdt))|]. split; [exact (proj2 (P Hdt))|].
   split; [apply bridge_docinv; assumption|]. split; [apply bridge_shape; assumption | apply bridge_parents; assumption].
 Qed.
 
@@ -205,7 +205,47 @@ Example br_same_rows (p : path_expr) : simple_path [] p ->
             query rp_view (path_query p) ctx_default = (XDoc.Ok (XNodes l), ctx_default) /\
             spec_query br_view [] 0 0 (path_query p) = Some (SNodes (map Row l)).
 Proof.
-  intros Hp. destruct br_hypotheses as [Hg [Hd [He [Hdt [T [O [He2 [Hdt2 [Hn Hs]]]]]]]]].
+  intros Hp. destruct br_hypotheses as [Hg [Hd [He [Hdt [T [O [He2 [Hdt2 Hs]]]]]]]].
   exact (query_depends_on_tree_only (facts_of br_store) (facts_of rp_store) true ex_world br_ops 0 br_store rp_store
-           Hg Hd T O He Hdt He2 Hdt2 Hn Hs [] eq_refl p ctx_default ctx_default eq_refl eq_refl Hp).
+           Hg Hd T O He Hdt He2 Hdt2 Hs [] eq_refl p ctx_default ctx_default eq_refl eq_refl Hp).
+Qed.
+
+(** ** 3. where the hypotheses fail (reachable states; both are known findings of C15 / C14) *)
+
+(** the document element removed (finding C15-NOROOT): no table of that document satisfies [DocInv] *)
+Definition nr_ops : list op := [ RemoveChild (0, 1) (0, 2) ].
+Definition nr_store : store := match doc_at (run ex_world nr_ops) 0 with Some s => s | None => ex_store end.
+
+Example nr_no_docinv : doc_element nr_store = None /\ ~ DocInv (xdoc_of_store (facts_of nr_store) true nr_store).
+Proof.
+  split; [vm_compute; reflexivity|]. intros H.
+  assert (T : TreeInv nr_store).
+  { assert (Hw : WInv (run ex_world nr_ops)).
+    { apply run_inv. constructor; [|constructor]. apply tree_inv_b_sound. vm_compute. reflexivity. }
+    apply (doc_at_P TreeInv _ 0 nr_store Hw). vm_compute. reflexivity. }
+  apply (bridge_needs_document_element _ _ _ T H). vm_compute. reflexivity.
+Qed.
+
+(** a text node without characters (finding DD3): b.append_child(create_text_node("")); the
+    serialisation is <r><a x="1">t</a><b></b></r>, its fresh parse has no such node, so the two
+    tables do not show the same tree and //b/node() differs *)
+Definition et_ops : list op :=
+  [ CreateTextNode (0, 1) (mkData [] true true true None None);   (* id 8 *)
+    AppendChild (0, 7) (0, 8) ].
+Definition et_store : store := match doc_at (run ex_world et_ops) 0 with Some s => s | None => ex_store end.
+Definition et_view : xdoc := xdoc_of_store (facts_of et_store) true et_store.
+Definition et_reparsed_view : xdoc := xdoc_of_store (facts_of ex_store) true ex_store.
+Definition p_bnode : path_expr :=
+  PAbs LpDescendantOrSelfNode
+    (ERelPath (StepTest (AxisAbbreviated []) (nm [98]) ExprNil)
+              (StepopCons LpCurrent (StepTest (AxisAbbreviated []) (TestType NtNode) ExprNil) StepopNil)).
+
+Example et_not_same_tree :
+  show_doc et_store = [60;114;62; 60;97;32;120;61;34;49;34;62;116;60;47;97;62; 60;98;62;60;47;98;62; 60;47;114;62] /\
+  ~ same_tree et_view et_reparsed_view /\
+  fst (query et_view (path_query p_bnode) ctx_default) = XDoc.Ok (XNodes [9]) /\
+  fst (query et_reparsed_view (path_query p_bnode) ctx_default) = XDoc.Ok (XNodes []).
+Proof.
+  split; [vm_compute; reflexivity|]. split; [|split; vm_compute; reflexivity].
+  intros H. apply same_tree_length in H. vm_compute in H. discriminate.
 Qed.
